@@ -337,6 +337,10 @@ def cmd_check(args):
                     known_hit.setdefault(k["what"], []).append(r)
     for what, rs in known_hit.items():
         lines.append("KNOWN-FINDING: property=%s %s (seen in %d runs, e.g. replay=%s)" % (pid, what, len(rs), rs[0].get("replay", "")))
+    # every listed (unrepaired) finding of this property is named, also when this batch did not run into it
+    for k in known:
+        if k.get("property") == pid and k.get("status") == "known" and k["what"] not in known_hit:
+            lines.append("KNOWN-FINDING: property=%s %s (listed in known_findings.json; not reached by this batch)" % (pid, k["what"]))
     reported = set()
     confirmed = 0
     for r in unknown:
